@@ -168,6 +168,8 @@ round trip needs is that the result is a `float` / `complex`. -/
 structure NumRT (E : Ext) : Prop where
   float_kind : ∀ v y, E.call "float" v = .ok y → ∃ f, y = .float f
   complex_kind : ∀ v y, E.call "complex" v = .ok y → ∃ re im, y = .complex re im
+  /-- no custom handler intercepts the elements of undeclared type (`dynElem`) -/
+  noElemHook : NoElemHook E
 
 /-- **Externals hypothesis for string-serialised scalars.**  Everything the round trip needs from
 the standard library, and nothing else:
